@@ -194,7 +194,7 @@ pub struct Tracked {
     val: u32,
     magic: u64,
     #[cfg(feature = "wide-elem")]
-    _pad: [u64; 14],
+    _pad: [u64; 30],
 }
 
 pub enum Validity {
@@ -224,7 +224,7 @@ impl Tracked {
             val,
             magic: magic_for(id),
             #[cfg(feature = "wide-elem")]
-            _pad: [0x5151_5151_5151_5151; 14],
+            _pad: [0x5151_5151_5151_5151; 30],
         }
     }
 
@@ -235,7 +235,7 @@ impl Tracked {
             val: 0,
             magic: INERT_MAGIC,
             #[cfg(feature = "wide-elem")]
-            _pad: [0; 14],
+            _pad: [0; 30],
         }
     }
 
